@@ -70,14 +70,18 @@ int main(int argc, char **argv)
 		 * kernels load tables with unaligned loads) */
 		_Alignas(64) uint8_t tblbuf[64 + 32 + 64 + 16];
 		uint8_t *tbl = tblbuf + 32; /* tbl + 32 is the table of the aligned case used for the product check below */
-		for (int off = 15; off >= 0; off--) {
+		for (int offp = 47; offp >= 0; offp--) {
+			/* the table is a pure OUTPUT: its prior contents (EE, the constant itself, its complement) must not matter */
+			int off = offp % 16, pre = offp / 16;
 			memset(tblbuf, 0xEE, sizeof tblbuf);
 			uint8_t *tt = tblbuf + 64 + off;
+			if (pre)
+				memset(tt, pre == 1 ? a : (uint8_t)~a, 32);
 			gf_vect_mul_init(a, tt);
 			v_eval();
 			for (int i = 0; i < 16; i++) {
 				if (tt[i] != rgf_mul_slow(a, i) || tt[16 + i] != rgf_mul_slow(a, i << 4)) {
-					snprintf(key, sizeof key, "gf_vect_mul_init c=%02x table-address%%16=%d", a, off);
+					snprintf(key, sizeof key, "gf_vect_mul_init c=%02x table-address%%16=%d prefill=%s", a, off, pre == 0 ? "EE" : pre == 1 ? "c" : "~c");
 					v_violation(key, "entry %d: lo %02x (exp %02x) hi %02x (exp %02x)", i, tt[i], rgf_mul_slow(a, i),
 						    tt[16 + i], rgf_mul_slow(a, i << 4));
 					break;
